@@ -2,6 +2,7 @@ package cache
 
 import (
 	"fmt"
+	"runtime"
 	"runtime/debug"
 	"strconv"
 	"strings"
@@ -371,6 +372,19 @@ func newRig(e *ev.Env, c *ev.Case, cf conf) *rig {
 		}
 	}
 	app := fiber.New()
+	// A middleware in front of the cache (a logger, say): the response of a request is what is
+	// there when the whole chain has returned, not what the cache had set when it returned. Under
+	// the scheduler a request can be parked here ("afterCache") while others go through the cache;
+	// in the real-time build hits linger here for a moment.
+	app.Use(func(c fiber.Ctx) error {
+		err := c.Next()
+		g.y("afterCache")
+		if g.realtime && g.inline && string(c.Response().Header.Peek("X-Cache")) == "hit" {
+			runtime.Gosched()
+			time.Sleep(200 * time.Microsecond)
+		}
+		return err
+	})
 	app.Use(fcache.New(cc))
 	app.All("/*", g.origin)
 	g.app = app
